@@ -10,6 +10,9 @@
 //! * evaluation fuel: `eval_tick()` is called per visited statement and per
 //!   loop iteration; past the per-thread limit it panics with
 //!   [`FuelExhausted`]. Enabled per thread with `set_eval_fuel(limit)`.
+//! * extension paths: `paths_begin()` / `paths_tick()` bound the size of one
+//!   cartesian product built by `selector::extend::functions::paths`. Enabled
+//!   per thread with `set_paths_fuel(limit)`.
 //! * call depth: `depth_guard()` counts the nesting of user-defined callables;
 //!   past the per-thread limit it panics with [`FuelExhausted`]. Enabled per
 //!   thread with `set_depth_limit(limit)`.
@@ -158,6 +161,40 @@ pub(crate) fn depth_guard() -> DepthGuard {
         std::panic::panic_any(FuelExhausted("depth"));
     }
     DepthGuard(())
+}
+
+thread_local! {
+    static PATHS_LIMIT: Cell<u64> = const { Cell::new(0) };
+    static PATHS_TICKS: Cell<u64> = const { Cell::new(0) };
+}
+
+/// Budget for the number of paths one call of `selector::extend::functions::paths`
+/// (a cartesian product) may build on this thread; `0` disables.
+pub fn set_paths_fuel(limit: u64) {
+    PATHS_LIMIT.with(|c| c.set(limit));
+    PATHS_TICKS.with(|c| c.set(0));
+}
+
+#[inline]
+pub(crate) fn paths_begin() {
+    PATHS_TICKS.with(|c| c.set(0));
+}
+
+#[inline]
+pub(crate) fn paths_tick() {
+    let limit = PATHS_LIMIT.with(Cell::get);
+    if limit == 0 {
+        return;
+    }
+    let n = PATHS_TICKS.with(|c| {
+        let n = c.get() + 1;
+        c.set(n);
+        n
+    });
+    if n > limit {
+        PATHS_LIMIT.with(|c| c.set(0));
+        std::panic::panic_any(FuelExhausted("paths"));
+    }
 }
 
 /// `AtomicU32` whose every operation is a scheduling point.
